@@ -148,6 +148,8 @@ pub fn execute(t: &Trace, stats: &mut Stats, record: bool) -> Outcome {
     let mut nontrivial = false;
     let mut stopped = false;
 
+    let stride = check_stride(t.ops.len());
+    let mut since_check = 0usize;
     let mut ops: Vec<Op> = t.ops.clone();
     let mut i = 0usize;
     let mut budget = 2 * n as u64 + 64 + 2 * t.faults.iter().map(|f| f.times as u64).sum::<u64>();
@@ -317,6 +319,12 @@ pub fn execute(t: &Trace, stats: &mut Stats, record: bool) -> Outcome {
         }
         // delivered text+colours == expected for the prefix reported consumed (strict), and always
         // a prefix of the expectation for the whole input
+        since_check += 1;
+        let due = since_check >= stride || !matches!(r, OpResult::Count(_) | OpResult::Done) || i >= ops.len();
+        if !due {
+            continue;
+        }
+        since_check = 0;
         let d = delivered_tagged(&h);
         if strict {
             let e = expected_tagged(&input[..c]);
